@@ -80,6 +80,9 @@ def evaluate(spec):
               "topology:" + spec.get("topology", "?")]
     if sum(1 for c in spec["conns"] if c.get("share_cids")) >= 2:
         labels.append("quic-connections-with-equal-cids")
+    sp_ = {c["ep"]["sport"] for c in spec["conns"] if c["kind"] == "quic"} - {443, 44330}
+    if sp_ & {c["ep"]["cport"] for c in spec["conns"]}:
+        labels.append("client-port-equals-a-quic-server-port")
     if sum(1 for c in spec["conns"] if c.get("share_master")) >= 2:
         labels.append("tls-connections-with-equal-master-secret")
     return {"sig": sig, "detail": detail, "nontrivial": exporting >= 2 and alt >= 3, "labels": labels, "evals": evals}
@@ -96,6 +99,7 @@ def spec_strategy(draw, tier):
     # connection IDs are chosen per endpoint, nothing keeps two connections from choosing the same ones
     share = draw(st.sampled_from([None, None, None, 1, 2]))
     share_lens = None
+    quic_ports = []      # server ports of QUIC connections outside the default list (a QUIC session exists for any UDP port)
     for i in range(n):
         k = draw(st.sampled_from(["tls", "tls", "quic", "quic", "noise"])) if i >= 2 else draw(st.sampled_from(["tls", "quic"]))
         topo = topology if topology != "mixed" else draw(st.sampled_from(["distinct", "same-hosts", "same-client-port", "same-server", "swapped-roles"]))
@@ -112,6 +116,12 @@ def spec_strategy(draw, tier):
         elif topo == "same-server":       # different clients, one server
             ep.update(sip=base["sip"], smac=base["smac"], v6=base["v6"])
             ep["cip"] = ("2001:db8:eeee::%x" % (i + 1)) if base["v6"] else "10.99.%d.%d" % (i, 1 + i)
+        if k == "quic" and topo in ("distinct", "same-server") and draw(st.integers(0, 2)) == 0:
+            ep["sport"] = draw(st.sampled_from([4433, 50000, 8853]))
+            quic_ports.append(ep["sport"])
+        elif k != "noise" and quic_ports and topo == "distinct" and draw(st.integers(0, 1)) == 0:
+            # a later client happens to use, as its ephemeral port, the number of a port some QUIC server listens on
+            ep["cport"] = draw(st.sampled_from(quic_ports))
         if k == "noise":
             ep["sport"] = draw(st.sampled_from([80, 8080, 53, 443]))
         # one flow per (protocol, address pair, port pair), in either orientation; noise may be TCP or UDP, so it claims both
@@ -120,7 +130,7 @@ def spec_strategy(draw, tier):
         def taken():
             return any((pr, ep["cip"], ep["cport"], ep["sip"], ep["sport"]) in used or (pr, ep["sip"], ep["sport"], ep["cip"], ep["cport"]) in used
                        for pr in protos)
-        while taken() or ep["cport"] in (443, 44330):
+        while taken() or ep["cport"] in (443, 44330) or ep["cport"] == ep["sport"]:
             ep["cport"] = 1024 + (ep["cport"] - 1023) % 64000
         for pr in protos:
             used.add((pr, ep["cip"], ep["cport"], ep["sip"], ep["sport"]))
